@@ -7,6 +7,7 @@ CONSTANTS
   FieldNames = {}
   Routes = {}
   MaxSlots = 0
+  MaxPtrs = 0
   MaxVer = 0
   MaxSteps = 0
 CHECK_DEADLOCK FALSE
